@@ -32,6 +32,15 @@ func Main(c16 bool) {
 		corpus = append(corpus, Case{Text: s, Stream: "corpus"})
 	}
 	ck.Run(corpus)
+	// 1j. character classes (chars.go): per UTF-8 length class several characters — class boundaries,
+	// supplementary planes, combining marks, zero-width and double-width characters, ill-formed sequences —
+	// in comments, both kinds of string, unquoted arguments and keywords on the line of a later keyword or
+	// of the offending token of a single fault: columns are counted in characters
+	ck.RunChunked(CharClassCases)
+	ck.RunChunked(func(emit func(Case)) {
+		EnumStrings(WideAlphabet, 4, func(s string) { emit(Case{Text: s, Stream: "enum_token_wide"}) })
+		EnumStrings(WideAlphabet, 3, func(s string) { emit(Case{Text: "x " + s + " y;", Stream: "enum_token_wide"}) })
+	})
 	// 1f. an earlier statement that could switch a mode, before / around / in a closed block before a
 	// statement whose reading is mode-sensitive
 	csLevel := 1
@@ -159,8 +168,8 @@ func Main(c16 bool) {
 	})
 	ck.Finish()
 	res.Exhaustive = true
-	res.Rule = fmt.Sprintf("yang.Parse vs impl model (whole canonical result: forest with keywords, argument presence, argument bytes, nesting, order, file:line:col of every statement, or the error lines as (line, col, class)) on every text; yang.Parse vs the reference reader on every well-encoded admissible text. Streams: corpus (defect witnesses, /repo YANG files and test literals); carried_state (generic parsing has no memory): prefix statements (the RFC 7950 statement keywords, a few prefixed ones and every word-like string literal of pkg/yang/lex.go and parse.go read at run time, each alone and with the arguments 1, 1.1, 2, true, false, x, pattern, invert-match and the same source literals, unquoted and double-quoted; yang-version also with 32 further arguments such as 1.0, 1.10, ' 1.1', '', 7950; yang-version and the source literals also single-quoted and split in two +-joined pieces) x 10 placements (earlier top-level statement, sibling before, parent, ancestor, inside an earlier closed block, earlier statement with a block, all at once, later statement on both sides) x 11 later statements whose reading is mode-sensitive (pattern with undefined escapes double- and single-quoted, in a later +-joined piece, over a line break, with substatements, nested in type; the same escapes in error-message / description / x:pattern, which must be rejected at the backslash; defined escapes) - the full product for yang-version (C02 and thorough: also for the source literals and 7 more keywords; C02 thorough: for all), four rotating (placement, later statement) pairs for the others; format_chars: U+FEFF, U+200B, U+2060, U+00AD, U+200E, U+00A0, U+2028, U+0085, FF, VT at the very start of the text (once, twice, followed by blank / tab / line end / comment), before, inside and after tokens, inside strings and comments, at the start of line 2, in front of 7 bodies (accepted; stray }, missing ;, undefined escape, unterminated quote / comment, quoted keyword); pattern_lookalikes: 21 keywords (pattern, quoted pattern, posix-pattern, x:pattern, oc-ext:posix-pattern, pattern:x, a:b:pattern, patterns, Pattern, ...) x 16 arguments with undefined backslash pairs (also in later +-joined pieces) x 7 placements (alone, with a substatement, before / after / inside / around a real pattern statement); repeated tokens (what a token reads as does not depend on an earlier token that looks the same; built inside the claim: a Go mirror of dqExcluded steers generation, the reference reader decides and the Distribution counts spec_accepts_by_stream / spec_inadmissible_by_stream): repeated_dq: %d raw double-quoted contents (one line; continuation lines indented by 0-24 blanks, trailing blanks, empty lines, a line break first / last, defined escapes, tabs after a non-blank and among trailing blanks, tabs among the leading blanks only at quote columns where they do not straddle; undefined backslash pairs) each 2-4 times in one text behind %d statement heads that put the opening quote at columns 1-21 (after a tab, a multi-byte keyword, a comment, on a line of its own, as a later piece of a concatenation): all ordered pairs of heads as two statements and as parent and child, rotating triples and quadruples in a row / nested / after a closed block, on one line, as 2-4 pieces of one concatenation, and as the argument of a pattern statement (5 heads) before, after, around and inside another statement; dq_linebreak (only space and tab are stripped around a literal line break of a double-quoted string, every other character is text): %d raw items in %d classes (CR, CR CR, CR SP CR; tab; space; NUL; U+0001, VT, FF, ESC, DEL, U+0085; U+00A0; U+2028, U+2029; U+3000, U+2003, U+200B, U+FEFF; an ASCII and three multi-byte letters; punctuation and comment openers; each backslash pair \\n \\t \\\" \\\\, undefined pairs, backslash before CR / space / tab / line feed) placed before the break (behind nothing, x, x SP, x TAB; followed by 8 runs of trailing blanks: none, spaces, tabs, mixed; 4 continuations) and after it (behind 10-15 runs of leading blanks that end before / at / after the strip column, with spaces and with tabs that do not straddle; 4 continuations), behind %d statement heads (quote columns 1, 3, 9, 10, 11, 24; after a tab, a multi-byte keyword, as a later piece of a concatenation, in a pattern argument), and one item per class on both sides at once; only texts inside the claim are emitted (the Go mirror of dqExcluded drops CR LF, an escaped blank before the break and a straddling tab) and the Distribution lists per class what the reference reader said (linebreak_classes: spec_accepts / spec_rejects / spec_inadmissible / not_emitted_outside_claim; classes without an accepted text by name: an escaped blank before the break is outside the claim by definition); cr_neighbours: 12 runs of carriage returns, blanks and line feeds inside and next to single-quoted strings, unquoted tokens (CR ends the token), comments (CR does not end a line), between tokens, in one-line double-quoted strings and on the line of an opening double quote (CR counts one column); repeated_enum: every content of <= %d symbols over {a SP LF \\n} twice, the quotes at two different columns among 1..5 (20 ordered pairs), as two pieces of one concatenation, inside and outside a pattern statement; repeated_sq_word_comment: the same contents single-quoted (and single- next to double-quoted), 17 unquoted words as keyword and argument at several depths, 12 comments between all tokens of a statement and as text of quoted strings; repeated_layout: %d seeded random forests whose quoted pieces (1-3 per text: 5 in 8 double-quoted without excluded constructs, 1 in 8 with pattern-style escapes, 1 in 8 single-quoted, 1 in 8 unrestricted), keywords, unquoted arguments and comment are drawn from a pool made for that text, laid out with random blanks, tabs, line breaks and that comment; deep_runs: chains of nested blocks of depth 1..40 closed back to back (6 separators; one brace too few / too many; statements after the run) and homogeneous runs of 1..30, 40, 60, 100 tokens of 16 kinds (punctuation, blocks, statements, quoted strings, +-joined pieces, words, undefined escapes, comments), unseparated and separated; long_line: 6 (thorough: 8) paddings of 66000-70000 characters on one line (comment, blanks and tabs, single-quoted multi-byte string, concatenation, in the thorough tier a double-quoted string and an unquoted token) or as many lines (LF, CR LF), each followed on the same line by 8 tails (further statements; a stray }, an undefined escape, an unterminated quote or comment, a quoted keyword, a missing ;); exhaustive: every string of <= %d symbols over {a SP LF TAB ; { } \" ' \\ + / * n e-acute}, and of <= %d symbols behind `pattern ` and `x ` (one symbol less behind `posix-pattern ` and `x:pattern `); every sequence of <= %d whole tokens over {\"a\" 'b' \"+\" '+' + ; { } c \"\"} behind `x ` and `pattern ` (blank-separated, and unseparated for the shorter ones); every string content of <= %d (last three prefixes: %d) symbols over {a SP TAB LF \\ n \" e-acute} behind %d prefixes that put the opening quote at different tab-expanded columns (after a tab, a comment, a multi-byte character, a single-quoted piece, in a pattern argument); seeded random: %d layouts of random forests (one text in 20 with a byte order mark glued to its first keyword; one keyword in 12 a look-alike of pattern, half of those with pattern-style escapes; one statement in 20 a chain of depth 8-12 closed at once; quoting styles, + splitting, comment/blank/CRLF filler, continuation-line indentation, escapes), %d mutated texts (token/byte deletion, insertion, truncation, invalid UTF-8, error-budget overflow)%s. distinct_nontrivial = distinct texts containing a quote, a comment opener or a block",
-		len(repeatRaws()), len(repeatHeads), len(lbItems), len(firstOfClass()), len(lbHeads), repLen, nRepeat, tokLen, prefLen, seqLen, conLen, conLen-1, len(QuotePrefixes), nLayout, nMal,
+	res.Rule = fmt.Sprintf("yang.Parse vs impl model (whole canonical result: forest with keywords, argument presence, argument bytes, nesting, order, file:line:col of every statement, or the error lines as (line, col, class)) on every text; yang.Parse vs the reference reader on every well-encoded admissible text. Streams: corpus (defect witnesses, /repo YANG files and test literals); char_classes (columns are counted in characters): %d pool entries — per UTF-8 length class the first and last code point (U+007F/U+0080, U+07FF/U+0800, U+FFFF/U+10000, U+10FFFF), supplementary-plane characters (U+10000, U+1D400, U+1F600, U+20000, U+E0001, U+E0100, U+100000), combining marks (U+0301, U+20DD, U+1D165), zero-width (U+200B, U+200D, U+FE0F) and double-width (U+4E16, U+FF21, U+1F600) characters, the neighbours of the surrogate block, U+FFFD, and 13 ill-formed sequences (surrogates as UTF-8 alone and as a CESU-8 pair, overlong forms, above U+10FFFF, 5-byte form, lone continuation, truncated sequences, 0xFF; outside the claim: implementation vs impl model only) — each in 16 carriers (block comment one-line / on the last line of a two-line one / between tokens; double-quoted one-line / two pieces / on a continuation line; single-quoted one- and two-line; unquoted argument; keyword; all at once; on line 2; control: on the previous line only) on the same physical line before 10 bodies (an accepted forest and one fault of each kind: stray }, missing ;, undefined escape, unterminated ' and \" and comment, quoted keyword, the last two also with the offending token right behind the carrier) and in 10 texts where the offending backslash / opener / token is glued to the character; the same pool is sprinkled (Sprinkle: one or two pool characters in a third of the keywords, unquoted arguments, quoted pieces and in block comments behind tokens) over one text in four of layout / malformed / single_fault / source_names_* / repeated_layout; the Distribution lists per class how many texts carried it (char_classes); enum_token_wide: every string of <= 4 symbols over {a SP LF ; { } \" ' / * U+1F600 U+0301}, and of <= 3 between `x ` and ` y;`; carried_state (generic parsing has no memory): prefix statements (the RFC 7950 statement keywords, a few prefixed ones and every word-like string literal of pkg/yang/lex.go and parse.go read at run time, each alone and with the arguments 1, 1.1, 2, true, false, x, pattern, invert-match and the same source literals, unquoted and double-quoted; yang-version also with 32 further arguments such as 1.0, 1.10, ' 1.1', '', 7950; yang-version and the source literals also single-quoted and split in two +-joined pieces) x 10 placements (earlier top-level statement, sibling before, parent, ancestor, inside an earlier closed block, earlier statement with a block, all at once, later statement on both sides) x 11 later statements whose reading is mode-sensitive (pattern with undefined escapes double- and single-quoted, in a later +-joined piece, over a line break, with substatements, nested in type; the same escapes in error-message / description / x:pattern, which must be rejected at the backslash; defined escapes) - the full product for yang-version (C02 and thorough: also for the source literals and 7 more keywords; C02 thorough: for all), four rotating (placement, later statement) pairs for the others; format_chars: U+FEFF, U+200B, U+2060, U+00AD, U+200E, U+00A0, U+2028, U+0085, FF, VT at the very start of the text (once, twice, followed by blank / tab / line end / comment), before, inside and after tokens, inside strings and comments, at the start of line 2, in front of 7 bodies (accepted; stray }, missing ;, undefined escape, unterminated quote / comment, quoted keyword); pattern_lookalikes: 21 keywords (pattern, quoted pattern, posix-pattern, x:pattern, oc-ext:posix-pattern, pattern:x, a:b:pattern, patterns, Pattern, ...) x 16 arguments with undefined backslash pairs (also in later +-joined pieces) x 7 placements (alone, with a substatement, before / after / inside / around a real pattern statement); repeated tokens (what a token reads as does not depend on an earlier token that looks the same; built inside the claim: a Go mirror of dqExcluded steers generation, the reference reader decides and the Distribution counts spec_accepts_by_stream / spec_inadmissible_by_stream): repeated_dq: %d raw double-quoted contents (one line; continuation lines indented by 0-24 blanks, trailing blanks, empty lines, a line break first / last, defined escapes, tabs after a non-blank and among trailing blanks, tabs among the leading blanks only at quote columns where they do not straddle; undefined backslash pairs) each 2-4 times in one text behind %d statement heads that put the opening quote at columns 1-21 (after a tab, a multi-byte keyword, a comment, on a line of its own, as a later piece of a concatenation): all ordered pairs of heads as two statements and as parent and child, rotating triples and quadruples in a row / nested / after a closed block, on one line, as 2-4 pieces of one concatenation, and as the argument of a pattern statement (5 heads) before, after, around and inside another statement; dq_linebreak (only space and tab are stripped around a literal line break of a double-quoted string, every other character is text): %d raw items in %d classes (CR, CR CR, CR SP CR; tab; space; NUL; U+0001, VT, FF, ESC, DEL, U+0085; U+00A0; U+2028, U+2029; U+3000, U+2003, U+200B, U+FEFF; an ASCII and three multi-byte letters; punctuation and comment openers; each backslash pair \\n \\t \\\" \\\\, undefined pairs, backslash before CR / space / tab / line feed) placed before the break (behind nothing, x, x SP, x TAB; followed by 8 runs of trailing blanks: none, spaces, tabs, mixed; 4 continuations) and after it (behind 10-15 runs of leading blanks that end before / at / after the strip column, with spaces and with tabs that do not straddle; 4 continuations), behind %d statement heads (quote columns 1, 3, 9, 10, 11, 24; after a tab, a multi-byte keyword, as a later piece of a concatenation, in a pattern argument), and one item per class on both sides at once; only texts inside the claim are emitted (the Go mirror of dqExcluded drops CR LF, an escaped blank before the break and a straddling tab) and the Distribution lists per class what the reference reader said (linebreak_classes: spec_accepts / spec_rejects / spec_inadmissible / not_emitted_outside_claim; classes without an accepted text by name: an escaped blank before the break is outside the claim by definition); cr_neighbours: 12 runs of carriage returns, blanks and line feeds inside and next to single-quoted strings, unquoted tokens (CR ends the token), comments (CR does not end a line), between tokens, in one-line double-quoted strings and on the line of an opening double quote (CR counts one column); repeated_enum: every content of <= %d symbols over {a SP LF \\n} twice, the quotes at two different columns among 1..5 (20 ordered pairs), as two pieces of one concatenation, inside and outside a pattern statement; repeated_sq_word_comment: the same contents single-quoted (and single- next to double-quoted), 17 unquoted words as keyword and argument at several depths, 12 comments between all tokens of a statement and as text of quoted strings; repeated_layout: %d seeded random forests whose quoted pieces (1-3 per text: 5 in 8 double-quoted without excluded constructs, 1 in 8 with pattern-style escapes, 1 in 8 single-quoted, 1 in 8 unrestricted), keywords, unquoted arguments and comment are drawn from a pool made for that text, laid out with random blanks, tabs, line breaks and that comment; deep_runs: chains of nested blocks of depth 1..40 closed back to back (6 separators; one brace too few / too many; statements after the run) and homogeneous runs of 1..30, 40, 60, 100 tokens of 16 kinds (punctuation, blocks, statements, quoted strings, +-joined pieces, words, undefined escapes, comments), unseparated and separated; long_line: 6 (thorough: 8) paddings of 66000-70000 characters on one line (comment, blanks and tabs, single-quoted multi-byte string, concatenation, in the thorough tier a double-quoted string and an unquoted token) or as many lines (LF, CR LF), each followed on the same line by 8 tails (further statements; a stray }, an undefined escape, an unterminated quote or comment, a quoted keyword, a missing ;); exhaustive: every string of <= %d symbols over {a SP LF TAB ; { } \" ' \\ + / * n e-acute}, and of <= %d symbols behind `pattern ` and `x ` (one symbol less behind `posix-pattern ` and `x:pattern `); every sequence of <= %d whole tokens over {\"a\" 'b' \"+\" '+' + ; { } c \"\"} behind `x ` and `pattern ` (blank-separated, and unseparated for the shorter ones); every string content of <= %d (last three prefixes: %d) symbols over {a SP TAB LF \\ n \" e-acute} behind %d prefixes that put the opening quote at different tab-expanded columns (after a tab, a comment, a multi-byte character, a single-quoted piece, in a pattern argument); seeded random: %d layouts of random forests (one text in 20 with a byte order mark glued to its first keyword; one keyword in 12 a look-alike of pattern, half of those with pattern-style escapes; one statement in 20 a chain of depth 8-12 closed at once; quoting styles, + splitting, comment/blank/CRLF filler, continuation-line indentation, escapes), %d mutated texts (token/byte deletion, insertion, truncation, invalid UTF-8, error-budget overflow)%s. distinct_nontrivial = distinct texts containing a quote, a comment opener or a block",
+		len(CharPool), len(repeatRaws()), len(repeatHeads), len(lbItems), len(firstOfClass()), len(lbHeads), repLen, nRepeat, tokLen, prefLen, seqLen, conLen, conLen-1, len(QuotePrefixes), nLayout, nMal,
 		map[bool]string{true: fmt.Sprintf(", %d single-fault texts whose first positioned error must stand at the position the reference reader computes for the injected fault; source_names: %d ways of naming the source (fmt verbs %%20 %%2F %%s %%d %%v %%%% %%[1]s %%*d and a trailing lone %% in directories and in the base name, blanks and tabs, @ # + & ; | * ? ~ $, quotes, brackets, backslash, non-ASCII, position look-alikes, names of 600-3000 bytes, and a labelled family with `:`) x %d bodies (accepted forests; every error-writing site of lex.go / parse.go, some with fmt verbs in the quoted token) and rotating over random layouts, mutated texts and single faults: model and reference reader are asked under the given name, and what yang.Parse reports (every error line, every Location()) must equal what it reports under the plain name with the name replaced", nFault, len(NameShapes()), len(namedBodies)), false: ""}[c16])
 	res.Write(f.Out)
 	if len(res.Disagreements) > 0 {
